@@ -573,6 +573,11 @@ def valgrind_stage(binary, seed):
                             c.cmd("EVALSHA", sha, "1", "vg:k", "a", timeout=120)
                     ran += 1
                     res.cell("memcheck", tag, form)
+                except resp.ProtocolError:
+                    # e.g. a reply nested deeper than this client parses: start over on a new connection
+                    ran += 1
+                    c.close()
+                    c = srv.client(timeout=120)
                 except (Closed, Timeout, OSError):
                     if not srv.alive():
                         res.violation("crash/memcheck/%s" % tag, "server under valgrind exited %s on hostile script %s\n%s" % (
